@@ -1952,8 +1952,10 @@ class Engine:
         if "str_prefix" in c.ufuns:
             self.prefix_suffix_axiom()
         self.install_defs(st)
-        for r in c.requires:
-            st.assume(spec.ev_bool(r, st))
+        for i_, r in enumerate(c.requires):
+            f_ = spec.ev_bool(r, st)
+            st.assume(f_)
+            st.named["requires:%d" % i_] = f_  # usable as a named fact in `from:` / pres_from lists
         for a in c.axioms:
             st.assume(spec.ev_bool(a, st))
             self.assumptions_used.add("axiom in contract %s: %s" % (c.func, a))
